@@ -153,9 +153,8 @@ func VerifC10_mitm() {
 			r.clientDone = true
 		}()
 		verifrt.Settle()
-		if !r.clientDone {
-			verifrt.Advance(4 * timeout)
-		}
+		// let every timeout on either side expire (also so that no goroutine is left behind)
+		verifrt.Advance(4 * timeout)
 		verifrt.Assert(r.clientDone, "C10.mitm.returns")
 		if kind == 0 {
 			verifrt.Assert(r.clientErr == nil && r.serverDone && r.serverErr == nil && r.serverKey == r.result.AuthKey.Value, "C10.mitm.honest")
